@@ -821,6 +821,29 @@ def _bound_ok(b, X, guards, is_start):
     return None
 
 
+def _assignments(body, defs, l):
+    """Expressions of all assignments to the plain local `l` (None if it is ever borrowed mutably or written through a projection)."""
+    out = []
+    for bi, blk in enumerate(body["blocks"]):
+        for st in blk["s"]:
+            if st[0] != "=":
+                continue
+            if st[2][0] in ("ref", "rawptr") and M.pl_local(st[2][2]) == l and "mut" in str(st[2][1]).lower():
+                return None
+            if M.pl_local(st[1]) == l:
+                if not isinstance(st[1], int):
+                    return None
+                d2 = dict(defs)
+                d2[l] = ("rv", st[2], bi)
+                out.append(place_expr(body, d2, l))
+        t = blk["t"]
+        if t[0] == "call" and isinstance(t[1].get("dest"), int) and t[1]["dest"] == l:
+            d2 = dict(defs)
+            d2[l] = ("call", t[1], bi)
+            out.append(place_expr(body, d2, l))
+    return out
+
+
 def bound_provenance(body, s):
     """True if every bound of the string slice at site `s` is 0, len(X), a find/rfind position on X (optionally + the pattern's byte
     length), or a constant covered by a dominating starts_with(X, ascii literal). Otherwise an explanation."""
@@ -842,6 +865,11 @@ def bound_provenance(body, s):
     why = []
     for nm, b in zip(names, bounds):
         ok = _bound_ok(b, X, guards, nm == "start")
+        if ok is None and b[0] == "local":
+            # a local assigned on several paths (`match s.find(':') { Some(i) => i, None => s.len() }`): every assignment must be an accepted bound
+            alts = _assignments(body, defs, b[1])
+            if alts and all(_bound_ok(a_, X, guards, nm == "start") is not None for a_ in alts):
+                ok = "phi(" + ",".join(sorted({_bound_ok(a_, X, guards, nm == "start") for a_ in alts})) + ")"
         if ok is None:
             return f"the {nm} bound is not derived from find/len/a matched prefix of the sliced string"
         why.append(f"{nm}:{ok}")
